@@ -1282,7 +1282,8 @@ def uniform_partition(min_pt=None, max_pt=None, shape=None, cell_sides=None,
             pass
         else:
             xmax_calc = xmin + (n - sum([bdry_l, bdry_r]) / 2.0) * dx
-            if not np.isclose(xmax, xmax_calc):
+            # Compare relative to the cell size, not to the coordinates
+            if abs(xmax - xmax_calc) > 1e-5 * abs(dx):
                 raise ValueError('in axis {}: calculated endpoint '
                                  '{} = {} + {} * {} too far from given '
                                  'endpoint {}.'
